@@ -254,7 +254,7 @@ def run(prog, rep):
     # the general path must agree with the shortcut: it measures with the indent the line carries (C02), does not
     # break a line that fits (C07.R1 / C03), keeps every word (C06) and reassembles it unchanged (C01.R1)
     need = ["C04.WRAPPATH", "C11.R3", "C11.R1", "C11.R9", "C10", "C01.R1", "C02", "DISPATCH", "C07.R1", "C06.R2",
-            "C12.R1", "C12.R2", "C12.R4", "C12.R9"]
+            "C12.R1", "C12.R2", "C12.R4", "C12.R9", "C12.R5", "C12.R6", "C12.R7", "C12.R8"]
     from .common import has_feature as _hf
     if _hf(prog, "smawk"):
         need += ["C03.R1", "C03.R2", "C06.R3"]
